@@ -1796,12 +1796,14 @@
     WIDE_INTEGER_CONSTEXPR auto operator++(int) -> uintwide_t { const uintwide_t w(*this); preincrement(); return w; }
     WIDE_INTEGER_CONSTEXPR auto operator--(int) -> uintwide_t { const uintwide_t w(*this); predecrement(); return w; }
 
-    WIDE_INTEGER_CONSTEXPR auto operator~() -> uintwide_t&
+    WIDE_INTEGER_CONSTEXPR auto operator~() const -> uintwide_t
     {
       // Perform bitwise NOT.
-      bitwise_not();
+      uintwide_t tmp(*this);
 
-      return *this;
+      tmp.bitwise_not();
+
+      return tmp;
     }
 
     WIDE_INTEGER_CONSTEXPR auto operator|=(const uintwide_t& other) -> uintwide_t&
